@@ -51,6 +51,10 @@ type AppA struct {
 	Failed   string // first FinalizeBlock / Commit error
 	Blocks   []BlockA
 	KeeperOK []bool
+	// log interpreter state
+	cur     time.Time
+	opened  bool
+	pending []Op
 }
 
 // BlockA is what one block produced.
@@ -244,57 +248,71 @@ func (x *AppA) deliver(t time.Time, msgs []Op) BlockA {
 	return blk
 }
 
-// RunLog executes an operation log in order. Message operations are collected into the
-// transactions of the current block; a block operation closes the current block (FinalizeBlock
-// at the current block time + Commit) and moves the clock; a keeper-API operation ("other
-// modules": allow-list changes, prologue balances, governance parameter changes) first closes the
-// block with the transactions collected so far and is then applied directly to the committed
-// state, so that the relative order of all operations is preserved (the next block reuses the
-// same block time).
-func (x *AppA) RunLog(ops []Op) {
-	t := T0.Add(1)
-	var pending []Op
-	opened := false // a block at time t has been produced
-	flush := func() {
-		if len(pending) > 0 || !opened {
-			x.deliver(t, pending)
-			pending = nil
-			opened = true
-		}
+// Feed processes one operation of a log. Message operations are collected into the transactions
+// of the current block; a block operation closes the current block (FinalizeBlock at the current
+// block time + Commit) and moves the clock; a keeper-API operation ("other modules": allow-list
+// changes, prologue balances, governance parameter changes) first closes the block with the
+// transactions collected so far and is then applied directly to the committed state, so that the
+// relative order of all operations is preserved (the next block reuses the same block time).
+func (x *AppA) Feed(o Op) {
+	if x.Failed != "" {
+		return
 	}
-	direct := func(o Op) {
-		flush()
-		if x.Failed != "" {
-			return
-		}
-		w := &World{B: x.B, Ctx: x.Ctx(), Now: x.Now, Height: x.Height}
-		res := w.Apply(o)
-		x.KeeperOK = append(x.KeeperOK, res.OK)
+	if x.cur.IsZero() {
+		x.cur = T0.Add(1)
 	}
-	for _, o := range ops {
-		if x.Failed != "" {
-			return
+	switch o.Kind {
+	case OpBlock:
+		x.flush()
+		x.cur = o.Time
+		x.opened = false
+	case OpAddAllowed, OpUpdateAllowed, OpSetBalance:
+		x.direct(o)
+	case OpUpdateParams:
+		if o.Signer < 0 && o.SignerStr == "" { // the governance authority cannot sign a transaction
+			x.direct(o)
+		} else {
+			x.pending = append(x.pending, o)
 		}
-		switch o.Kind {
-		case OpBlock:
-			flush()
-			t = o.Time
-			opened = false
-		case OpAddAllowed, OpUpdateAllowed, OpSetBalance:
-			direct(o)
-		case OpUpdateParams:
-			if o.Signer < 0 && o.SignerStr == "" { // the governance authority cannot sign a transaction
-				direct(o)
-			} else {
-				pending = append(pending, o)
-			}
-		default:
-			pending = append(pending, o)
-		}
+	default:
+		x.pending = append(x.pending, o)
 	}
+}
+
+func (x *AppA) flush() {
+	if len(x.pending) > 0 || !x.opened {
+		x.deliver(x.cur, x.pending)
+		x.pending = nil
+		x.opened = true
+	}
+}
+
+func (x *AppA) direct(o Op) {
+	x.flush()
+	if x.Failed != "" {
+		return
+	}
+	w := &World{B: x.B, Ctx: x.Ctx(), Now: x.Now, Height: x.Height}
+	res := w.Apply(o)
+	x.KeeperOK = append(x.KeeperOK, res.OK)
+}
+
+// Close delivers the block that is still open.
+func (x *AppA) Close() {
 	if x.Failed == "" {
-		flush()
+		if x.cur.IsZero() {
+			x.cur = T0.Add(1)
+		}
+		x.flush()
 	}
+}
+
+// RunLog executes a whole operation log.
+func (x *AppA) RunLog(ops []Op) {
+	for _, o := range ops {
+		x.Feed(o)
+	}
+	x.Close()
 }
 
 // Dump renders the module state and all balances of the committed state.
